@@ -346,21 +346,49 @@ func (e *env) buildLoader(s *sdl.Source) configure.Loader {
 	panic("unknown source kind " + s.Kind)
 }
 
-func (e *env) sourceOption(s *sdl.Source) app.SettingOption {
-	if s.Kind == "file" && s.Via == "SetConfig" {
+func (e *env) sourceOption(ss ...*sdl.Source) app.SettingOption {
+	s := ss[0]
+	if s.Kind == "file" && s.Via == "SetConfig" && len(ss) == 1 {
 		l := e.buildLoader(s).(loader.FileLoader)
 		return app.SetConfig(string(l))
 	}
-	l := e.buildLoader(s)
+	var ls []configure.Loader
+	for _, x := range ss {
+		ls = append(ls, e.buildLoader(x))
+	}
 	switch s.Via {
 	case "SetConfigLoader":
-		return app.SetConfigLoader(l)
+		return app.SetConfigLoader(ls...)
 	case "AddConfigLoader":
-		return app.AddConfigLoader(l)
+		return app.AddConfigLoader(ls...)
 	case "AddLoaders", "SetConfig":
-		return func(a *app.App) { a.Configure.AddLoaders(l) }
+		return func(a *app.App) { a.Configure.AddLoaders(ls...) }
 	}
 	panic("unknown source via " + s.Via)
+}
+
+// configOptions builds the configuration options of the program: one option per source, or
+// one per group of sources.
+func (e *env) configOptions() []app.SettingOption {
+	p := e.prog
+	opts := []app.SettingOption{app.SetConfigLoader()}
+	var early []*sdl.Source
+	for _, s := range p.Sources {
+		if !s.Late {
+			early = append(early, s)
+		}
+	}
+	for i := 0; i < len(early); {
+		j := i + 1
+		if early[i].Group != 0 {
+			for j < len(early) && early[j].Group == early[i].Group && early[j].Via == early[i].Via {
+				j++
+			}
+		}
+		opts = append(opts, e.sourceOption(early[i:j]...))
+		i = j
+	}
+	return opts
 }
 
 // Run executes one simulated run. It must be called from a test (synctest needs *testing.T).
@@ -495,6 +523,8 @@ func (e *env) main(inClose, closeReturned *bool) {
 	var comps []any
 	var compIDs []string
 	var theApp *app.App
+	var contributed []any
+	simrt.Cur, simrt.ZeroIDs = ctx, map[string]string{}
 	for _, inst := range p.Instances {
 		inst := inst
 		h := &simrt.Handle{ID: inst.ID, Alias: inst.Alias, Qual: inst.Qual, Kind: inst.Kind, Ord: inst.Order, C: ctx}
@@ -527,8 +557,20 @@ func (e *env) main(inClose, closeReturned *bool) {
 		if _, dup := e.names[p.NameOf(inst)]; !dup {
 			e.names[p.NameOf(inst)] = inst.ID
 		}
+		if p.TypeByName(inst.Type).Zero {
+			simrt.ZeroIDs[inst.Type] = inst.ID
+		}
+		if inst.Contributed {
+			contributed = append(contributed, o)
+			continue
+		}
 		comps = append(comps, o)
 		compIDs = append(compIDs, inst.ID)
+	}
+	if len(contributed) != 0 {
+		h := &simrt.Handle{ID: "contrib", Alias: "contrib", C: ctx}
+		comps = append(comps, &simrt.Contributor{H: h, Objs: contributed})
+		compIDs = append(compIDs, "contrib")
 	}
 	byName := map[string]*sdl.Instance{}
 	for _, inst := range p.Instances {
@@ -606,20 +648,23 @@ func (e *env) main(inClose, closeReturned *bool) {
 		}
 	}
 
+	// start from an empty loader list so that the process's own argv plays no role
+	cfgOpts := e.configOptions()
+	if p.Warmup && !spec.Parallel {
+		// another container built from the very same option values comes first
+		func() {
+			defer func() { _ = recover() }()
+			ctx.Log("warmup", "", "")
+			w := app.NewApp()
+			wopts := append([]app.SettingOption{app.SetRegistry(support.NewRegistry()), app.SetFactory(factory.Default())}, cfgOpts...)
+			_ = w.Run(wopts...)
+			ctx.Log("warmup-done", "", "")
+		}()
+	}
 	a := app.NewApp()
 	theApp = a
 	opts := []app.SettingOption{app.SetRegistry(reg), app.SetFactory(fac)}
-	if len(p.Sources) != 0 {
-		// start from an empty loader list so that the process's own argv plays no role
-		opts = append(opts, app.SetConfigLoader())
-		for _, s := range p.Sources {
-			if !s.Late {
-				opts = append(opts, e.sourceOption(s))
-			}
-		}
-	} else {
-		opts = append(opts, app.SetConfigLoader())
-	}
+	opts = append(opts, cfgOpts...)
 	opts = append(opts, app.SetComponents(ordered...))
 
 	var runErr error
